@@ -200,6 +200,142 @@ smoothed spectra scales by `a/b`; in particular it is unchanged when `a = b`. -/
 theorem ratio_scale (sh sv a b : ℝ) (hb : b ≠ 0) (hv : sv ≠ 0) : (a * sh) / (b * sv) = (a / b) * (sh / sv) := by
   field_simp
 
+/-! ### The composed law: a common factor leaves every curve unchanged -/
+
+theorem getD_map_mul (row : List ℝ) (c : ℝ) (i : ℕ) : (row.map (c * ·)).getD i 0 = c * row.getD i 0 := by
+  simp only [List.getD_eq_getElem?_getD, List.getElem?_map]
+  cases row[i]? <;> simp
+
+theorem foldl_add_eq' (l : List ℝ) (x : ℝ) : l.foldl (· + ·) x = x + l.sum := by
+  induction l generalizing x with
+  | nil => simp
+  | cons a t ih => simp only [List.foldl_cons, List.sum_cons, ih]; ring
+
+theorem sgAt_homog (m : ℕ) (row : List ℝ) (c : ℝ) (idx : Int) :
+    sgAt m (row.map (c * ·)) idx = c * sgAt m row idx := by
+  unfold sgAt
+  simp only [List.length_map]
+  split
+  · simp
+  · simp only [getD_map_mul, ofNat_real, Nat.cast_zero, foldl_add_eq']
+    have : (List.map (fun r => (sgCoeff m (r + 1) : ℝ) * (c * row.getD (idx.toNat + (r + 1)) 0 + c * row.getD (idx.toNat - (r + 1)) 0))
+        (List.range ((m - 1) / 2))).sum
+        = c * (List.map (fun r => (sgCoeff m (r + 1) : ℝ) * (row.getD (idx.toNat + (r + 1)) 0 + row.getD (idx.toNat - (r + 1)) 0))
+        (List.range ((m - 1) / 2))).sum := by
+      induction (List.range ((m - 1) / 2)) with
+      | nil => simp
+      | cons a t ih => simp only [List.map_cons, List.sum_cons, ih]; ring
+    rw [this]
+    ring
+
+/-- every registered smoothing operator is homogeneous: scaling all rows by `c` scales the result by `c`
+(and an operator that refuses its arguments refuses them either way) -/
+theorem smoothByName_homog (op : String) (bw c : ℝ) (freqs : List ℝ) (rows : List (List ℝ)) (fcs : List ℝ) :
+    smoothByName op bw freqs (rows.map (fun r => r.map (c * ·))) fcs =
+      (smoothByName op bw freqs rows fcs).map (fun m => m.map (fun r => r.map (c * ·))) := by
+  have hk : ∀ w : ℝ → ℝ → Option ℝ, kernelSmooth w freqs (rows.map (fun r => r.map (c * ·))) fcs
+      = (kernelSmooth w freqs rows fcs).map (fun r => r.map (c * ·)) := by
+    intro w
+    unfold kernelSmooth
+    simp only [List.map_map]
+    apply List.map_congr_left
+    intro r _
+    simp only [Function.comp, List.map_map]
+    apply List.map_congr_left
+    intro fc _
+    simp only [Function.comp]
+    exact smooth_homog w freqs r fc c
+  unfold smoothByName
+  split
+  all_goals try (simp only [hk, Except.map])
+  · -- savitzky_and_golay
+    unfold savitzkyGolay
+    simp only
+    split
+    · rfl
+    · split
+      · rfl
+      · split
+        · rfl
+        · simp only [Except.map, List.map_map, Except.ok.injEq]
+          apply List.map_congr_left
+          intro r _
+          simp only [Function.comp, List.map_map]
+          apply List.map_congr_left
+          intro i _
+          simp only [Function.comp]
+          exact sgAt_homog _ r c _
+
+theorem ratioRow_scale (a : ℝ) (ha : 0 < a) (h v : List ℝ) :
+    ratioRow (h.map (a * ·)) (v.map (a * ·)) = ratioRow h v := by
+  unfold ratioRow
+  induction h generalizing v with
+  | nil => simp
+  | cons x xs ih =>
+    cases v with
+    | nil => simp
+    | cons y ys =>
+      simp only [List.map_cons, List.zip_cons_cons, List.mapM_cons]
+      have e0 : eqA (a * y) (Arith.ofNat 0 : ℝ) = eqA y (Arith.ofNat 0 : ℝ) := by
+        simp only [ofNat_real, Nat.cast_zero]
+        by_cases hy : y = 0
+        · subst hy; simp
+        · have h1 : eqA y (0:ℝ) = false := by rw [Bool.eq_false_iff]; intro hh; exact hy ((eqA_real y 0).mp hh)
+          have h2 : eqA (a * y) (0:ℝ) = false := by
+            rw [Bool.eq_false_iff]; intro hh
+            have := (eqA_real (a * y) 0).mp hh
+            rcases mul_eq_zero.mp this with h | h
+            · linarith
+            · exact hy h
+          rw [h1, h2]
+      rw [e0]
+      have hq : a * x / (a * y) = x / y := by
+        by_cases hy : y = 0
+        · subst hy; simp
+        · field_simp
+      rw [hq]
+      have := ih ys
+      simp only [List.mapM_cons] at this ⊢
+      rw [this]
+
+/-- **Unchanged under a common factor.** Multiplying all three components of a record by one factor `a > 0` leaves
+its HVSR curve unchanged, for every frequency-domain combination, every smoothing operator (including the
+refusals), every taper width and FFT length. -/
+theorem hvsr_scale_invariant (m : Combine) (cfg : ProcCfg ℝ) (n : ℕ) (r : Rec3 ℝ) (a : ℝ) (ha : 0 < a) :
+    hvsrRow (.combine m) cfg n { r with ns := r.ns.map (a * ·), ew := r.ew.map (a * ·), vt := r.vt.map (a * ·) }
+      = hvsrRow (.combine m) cfg n r := by
+  unfold hvsrRow
+  simp only [taper_homog, ampSpec_homog, abs_of_pos ha]
+  have hcomb : (List.zip ((ampSpec (taper cfg.width r.ns) n).map (a * ·)) ((ampSpec (taper cfg.width r.ew) n).map (a * ·))).map
+      (fun p => m.apply p.1 p.2)
+      = ((List.zip (ampSpec (taper cfg.width r.ns) n) (ampSpec (taper cfg.width r.ew) n)).map (fun p => m.apply p.1 p.2)).map (a * ·) := by
+    generalize ampSpec (taper cfg.width r.ns) n = X
+    generalize ampSpec (taper cfg.width r.ew) n = Y
+    induction X generalizing Y with
+    | nil => simp
+    | cons x xs ih =>
+      cases Y with
+      | nil => simp
+      | cons y ys => simp [ih ys, combine_homog m a x y ha.le]
+  rw [hcomb]
+  unfold smoothRows
+  have := smoothByName_homog cfg.op cfg.bw a (rfftfreq n r.dt)
+    [(List.zip (ampSpec (taper cfg.width r.ns) n) (ampSpec (taper cfg.width r.ew) n)).map (fun p => m.apply p.1 p.2),
+     ampSpec (taper cfg.width r.vt) n] cfg.fcs
+  simp only [List.map_cons, List.map_nil] at this
+  rw [this]
+  cases smoothByName cfg.op cfg.bw (rfftfreq n r.dt)
+    [(List.zip (ampSpec (taper cfg.width r.ns) n) (ampSpec (taper cfg.width r.ew) n)).map (fun p => m.apply p.1 p.2),
+     ampSpec (taper cfg.width r.vt) n] cfg.fcs with
+  | error e => rfl
+  | ok sm =>
+    simp only [Except.map]
+    match sm with
+    | [] => rfl
+    | [_] => rfl
+    | [sh, sv] => simp only [List.map_cons, List.map_nil]; exact ratioRow_scale a ha sh sv
+    | _ :: _ :: _ :: _ => rfl
+
 /-! ### Non-vacuity -/
 example : nextpow2 300 = 32768 := by decide
 example : nextpow2 32768 = 65536 := by decide
